@@ -88,14 +88,15 @@ type deferred struct {
 }
 
 type State struct {
-	reach   Val
-	cells   map[*ssa.Alloc]Val
-	heaps   map[string]Val
-	next    Val
-	defers  []deferred
-	iters   map[ssa.Value]Val // visited sets of map iterators
-	lazy    map[string]bool   // heaps modified by an enclosing loop but not materialised at its head
-	lazyAll bool
+	reach      Val
+	cells      map[*ssa.Alloc]Val
+	heaps      map[string]Val
+	next       Val
+	defers     []deferred
+	iters      map[ssa.Value]Val // visited sets of map iterators
+	lazy       map[string]bool   // heaps modified by an enclosing loop but not materialised at its head
+	lazyAll    bool
+	lazyScalar bool
 }
 
 func (s *State) clone() *State {
@@ -104,6 +105,7 @@ func (s *State) clone() *State {
 		n.lazy[k] = true
 	}
 	n.lazyAll = s.lazyAll
+	n.lazyScalar = s.lazyScalar
 	for k, v := range s.cells {
 		n.cells[k] = v
 	}
@@ -200,7 +202,7 @@ func (e *Enc) heap(st *State, name string, s Sort) Val {
 	if h, ok := st.heaps[name]; ok {
 		return h
 	}
-	if st.lazy[name] || (st.lazyAll && !strings.HasPrefix(name, "G_held") && !strings.HasPrefix(name, "G_rheld")) {
+	if st.lazy[name] || (st.lazyScalar && strings.HasPrefix(name, "H_")) || (st.lazyAll && !strings.HasPrefix(name, "G_held") && !strings.HasPrefix(name, "G_rheld")) {
 		// first use inside a loop that modifies this heap: arbitrary value at the loop head
 		if _, ok := e.base[name]; !ok {
 			e.base[name] = e.declare(name+"_0", s)
@@ -214,11 +216,43 @@ func (e *Enc) heap(st *State, name string, s Sort) Val {
 	}
 	h := e.declare(name+"_0", s)
 	e.base[name] = h
+	if strings.HasPrefix(name, "H_") {
+		e.heapWF(h, Val{"next_0", SInt})
+	}
 	return h
 }
 
+// heapWF: every reference stored in a heap points to an object allocated before `next`
+// (a type invariant of Go memory; asserted for entry heaps and for heaps havocked at loop heads).
+func (e *Enc) heapWF(h Val, next Val) {
+	k, v := h.S.ArrayParts()
+	if k != SLoc {
+		return
+	}
+	l := Val{"l!", SLoc}
+	var ref Val
+	switch v {
+	case SLoc:
+		ref = LRef(Select(h, l))
+	case SSlice:
+		ref = LRef(SBase(Select(h, l)))
+	case SIface:
+		ref = LRef(IVal(Select(h, l)))
+	case SFunc:
+		ref = LRef(FEnv(Select(h, l)))
+	default:
+		return
+	}
+	body := And(Val{app("<=", "0", ref.T), SBool}, Val{app("<", ref.T, next.T), SBool})
+	e.fact(quant("forall", []Val{l}, body, []string{Select(h, l).T}))
+}
+
 func (e *Enc) scalarHeap(st *State, s Sort) (string, Val) {
-	n := heapName(s)
+	return e.scalarHeapT(st, s, nil)
+}
+
+func (e *Enc) scalarHeapT(st *State, s Sort, t types.Type) (string, Val) {
+	n := heapNameT(s, t)
 	return n, e.heap(st, n, ArraySort(SLoc, s))
 }
 
@@ -534,7 +568,7 @@ func (e *Enc) load(st *State, loc Val, t types.Type) Val {
 		return arr
 	}
 	s := w.SortOf(t)
-	_, h := e.scalarHeap(st, s)
+	_, h := e.scalarHeapT(st, s, t)
 	return Select(h, loc)
 }
 
@@ -558,7 +592,7 @@ func (e *Enc) store(st *State, loc, v Val, t types.Type) {
 		return
 	}
 	s := w.SortOf(t)
-	n, h := e.scalarHeap(st, s)
+	n, h := e.scalarHeapT(st, s, t)
 	nh := e.fresh(n, h.S)
 	e.fact(Eq(nh, Store(h, loc, v)))
 	st.heaps[n] = nh
@@ -627,7 +661,7 @@ func (e *Enc) initGhost(st *State, loc Val, t types.Type, depth int) {
 func (e *Enc) zeroRange(st *State, base, n Val, elem types.Type) {
 	w := e.P.W
 	for _, lf := range w.Leaves(elem) {
-		hn, h := e.scalarHeap(st, lf.Sort)
+		hn, h := e.scalarHeapT(st, lf.Sort, lf.Type)
 		nh := e.fresh(hn, h.S)
 		l := Val{"l!", SLoc}
 		in := e.inRange(l, base, n, lf.Path)
@@ -733,6 +767,9 @@ func (e *Enc) merge(edges []edgeState, label string) *State {
 		if ed.st.lazyAll {
 			out.lazyAll = true
 		}
+		if ed.st.lazyScalar {
+			out.lazyScalar = true
+		}
 	}
 	mergeVals := func(prefix string, vals []Val) Val {
 		same := true
@@ -799,7 +836,7 @@ func (e *Enc) merge(edges []edgeState, label string) *State {
 		for _, ed := range edges {
 			v, ok := ed.st.heaps[k]
 			if !ok {
-				if ed.st.lazy[k] || ed.st.lazyAll {
+				if ed.st.lazy[k] || ed.st.lazyAll || (ed.st.lazyScalar && strings.HasPrefix(k, "H_")) {
 					v = e.fresh(k+"_lz", e.base[k].S)
 				} else {
 					v = e.base[k]
